@@ -364,7 +364,11 @@ func (p *Proxy) handleConnectRequest(ctx *Context, req *http.Request, session *S
 			// If the original connection is a traffic shaped connection, wrap the tls
 			// connection inside a traffic shaped connection too.
 			if ptsconn, ok := conn.(*trafficshape.Conn); ok {
-				nconn = ptsconn.Listener.GetTrafficShapedConn(tlsconn)
+				tsconn := ptsconn.Listener.GetTrafficShapedConn(tlsconn)
+				// The shaped connection around the TLS session has buckets of
+				// its own: they are released when it is closed.
+				defer tsconn.Close()
+				nconn = tsconn
 			}
 			brw.Writer.Reset(nconn)
 			brw.Reader.Reset(nconn)
